@@ -5,8 +5,12 @@ patch=$1; pid=$2; tier=${3:-quick}
 cd /repo || exit 3
 if ! git diff --quiet; then echo "/repo has local changes" >&2; exit 3; fi
 git apply "$patch" || exit 3
+restore() { cd /repo && git checkout -- . && git clean -fdq src tests 2>/dev/null; }
+trap 'restore; exit 143' TERM INT HUP
 cd /verif
-out=$(./check "$pid" --tier "$tier" 2>&1); rc=$?
-cd /repo && git checkout -- . && git clean -fdq src tests 2>/dev/null
+./check "$pid" --tier "$tier" > /tmp/seedrun.$$.out 2>&1 &
+wait $!; rc=$?
+out=$(cat /tmp/seedrun.$$.out); rm -f /tmp/seedrun.$$.out
+restore
 echo "$out" | grep -E "^(VIOLATION|KNOWN-FINDING|OK|INCONCLUSIVE)|what:" | cut -c1-400 | head -12
 echo "exit=$rc"
